@@ -203,6 +203,59 @@ def exclusion_check(ctx, ptoks, etoks, idx, glob_mode):
     ctx.mark_nontrivial(('ex', pat, epat, glob_mode))
 
 
+def unclosed_group_check(ctx):
+    """An extended-group opener that is never closed degrades to its plain meaning (`?`, `*` wildcards; `+ @ !` literals) followed by
+    a literal `(`: the wildcard stands at a name / segment start and must refuse the leading dot like any other."""
+    L_ = lambda x: tuple(('lit', c) for c in x)  # noqa: E731
+    SEP = (('sep', '/'),)
+    cases = [
+        ('?(a', (('q',),) + L_('(a')), ('*(a*', (('star',),) + L_('(a') + (('star',),)), ('?(a|b', (('q',),) + L_('(a|b')),
+        ('*(a|*', (('star',),) + L_('(a|') + (('star',),)), ('+(a', L_('+(a')), ('@(a*', L_('@(a') + (('star',),)), ('!(a', L_('!(a')),
+        ('?(a?', (('q',),) + L_('(a') + (('q',),)), ('*(', (('star',),) + L_('(')), ('?(?', (('q',),) + L_('(') + (('q',),)),
+        ('d/*(a|b', L_('d') + SEP + (('star',),) + L_('(a|b')), ('d/?(a', L_('d') + SEP + (('q',),) + L_('(a')),
+        ('**/?(a', (('gstar',),) + SEP + (('q',),) + L_('(a')), ('*(a/b', (('star',),) + L_('(a') + SEP + L_('b')),
+        ('?(a/*', (('q',),) + L_('(a') + SEP + (('star',),)), ('x?(a', L_('x') + (('q',),) + L_('(a')),
+    ]
+    names = ['.(a', 'x(a', '.(ab', '(a', '.(a|b', 'x(a|b', '.(a|', '.(a|x', '+(a', '.+(a', '@(a', '@(ab', '!(a', '.(', 'x(', '.(x', 'y(x', '.(ax', 'z(ax',
+             'd/.(a|b', 'd/x(a|b', 'd/.(a', 'd/y(a', '.(a/b', 'x(a/b', '.(a/.b', 'q(a/.b', 'x/.(a', 'x/y(a', 'a/b/.(a', 'xy(a', 'x.(a', '.x(a']
+    n = 0
+    for ci, (text, ast) in enumerate(cases):
+        if not ctx.mine(ci):
+            continue
+        for mode in ('fnmatch', 'glob', 'glob+GLOBSTAR', 'glob+MATCHBASE'):
+            if mode == 'fnmatch':
+                if '/' in text:
+                    continue
+                got_f = lambda nm: F.fnmatch(nm, text, flags=F.EXTMATCH)  # noqa: E731
+                exp_f = lambda nm: R.seg_match3(ast, nm, False)  # noqa: E731
+            else:
+                fn = ('EXTGLOB',) + (('GLOBSTAR',) if 'GLOBSTAR' in mode else ()) + (('MATCHBASE',) if 'MATCHBASE' in mode else ())
+                if any(t[0] == 'gstar' for t in ast) and 'GLOBSTAR' not in fn:
+                    continue
+                ps = pathspec(fn)
+                flags = flags_of(fn)
+                got_f = lambda nm: G.globmatch(nm, text, flags=flags)  # noqa: E731
+                exp_f = lambda nm: R.path_match3(ast, nm, ps)  # noqa: E731
+            for nm in names:
+                if mode == 'fnmatch' and '/' in nm:
+                    continue
+                exp = exp_f(nm)
+                if exp is None:
+                    continue
+                try:
+                    got = got_f(nm)
+                except Exception as e:  # noqa: BLE001
+                    got = f'raised {type(e).__name__}'
+                n += 1
+                if got is not exp:
+                    ctx.disagree(f'unclosed extended group: expected {exp} got {got}|{mode}',
+                                 {'mode': 'unclosed-group', 'pattern': text, 'meaning': gen.ser(ast), 'api': mode, 'name': nm, 'expected': exp, 'observed': got})
+                    break
+        ctx.mark_nontrivial(('unclosed', text))
+    ctx.evals(n)
+    ctx.count('unclosed_group_checks', n)
+
+
 def walker_exclusion_check(ctx, root):
     """The file-system walker applies exclusions with dot-matching forced, however they are given (exclude=, inline `!`, pathlib)."""
     incs = ['.*', '**/.*', '*/.*', '.h*', '.*/*', 'd/.*', '**', '*', '.hd/.*', 'd/**/.*']
@@ -326,6 +379,7 @@ def run(ctx):
         if ctx.shard == 0:
             wcmatch_tree_check(ctx, root, 0)
         walker_exclusion_check(ctx, root)
+        unclosed_group_check(ctx)
         for n in (1, 2):
             for toks in gen.enum_sequences(pool, n):
                 idx += 1
@@ -443,7 +497,9 @@ def replay(ctx, w):
     try:
         api = w.get('api')
         fl = tuple(f for f in w.get('flags', ()) if f != 'EXTGLOB')
-        if w.get('mode') == 'walker-exclusion':
+        if w.get('mode') == 'unclosed-group':
+            unclosed_group_check(ctx)
+        elif w.get('mode') == 'walker-exclusion':
             walker_exclusion_check(ctx, root)
         elif api == 'fnmatch':
             fn_check(ctx, w['ast'], tuple(w['flags']), 0)
